@@ -91,8 +91,20 @@ pub fn memcheck_arm(run: &Run, args: &Args, prop: &str, cases: u64, sets: &[(&st
                 }
             }
             flush(&mut cur);
-            run.count("memcheck_designs", cases as i64);
+            // what the child really did, from its own evidence file
+            let child: serde_json::Value =
+                std::fs::read_to_string(dir.join("child.json")).ok().and_then(|t| serde_json::from_str(&t).ok()).unwrap_or(serde_json::Value::Null);
+            let child_evals = child["coverage"]["evaluations"].as_u64().unwrap_or(0);
+            let vg_ran = text.contains("ERROR SUMMARY");
+            if child_evals == 0 || !vg_ran {
+                run.inconclusive(format!("memcheck arm: child evaluated {child_evals} cases, valgrind summary present: {vg_ran}"));
+            }
+            run.count("memcheck_designs", child_evals as i64);
             run.count("memcheck_error_contexts", contexts as i64);
+            if contexts > 0 {
+                // keep the valgrind log next to the replay files
+                return;
+            }
         }
     }
     let _ = std::fs::remove_dir_all(&dir);
